@@ -288,6 +288,13 @@ BB SC1 1 0.31 5000
 resname "ALA|GLY|LYS|AS"
 [ bonds ]
 BB +BB 1 0.35 4000
+[ link ]
+; an alanine that follows a glycine gets its side-chain atom renamed
+[ atoms ]
+BB {"resname": "GLY"}
++SC1 {"resname": "ALA", "replace": {"atomname": "SCX"}}
+[ bonds ]
+BB +SC1 1 0.52 520
 [ modification ]
 N-ter
 [ atoms ]
@@ -296,6 +303,7 @@ BB {"replace": {"atype": "Q5", "charge": 1.0}}
 C-ter
 [ atoms ]
 BB {"replace": {"atype": "Q5", "charge": -1.0}}
+SC1 {"replace": {"atype": "C3t"}}
 [ modification ]
 LYS-neutral
 [ atoms ]
@@ -320,9 +328,9 @@ def _snapshot(mol):
            rejects=(), selector_only=True, must_cover=["default termini", "explicit", "several", "offset", "relabelled", "non-protein terminus untouched"],
            assumes=["residue ids >= 1"],
            outside=["modifications that add atoms", "-mods spec parsing (vermouth parse_residue_spec is used as is)"],
-           bounds={"quick": dict(seqs=[["ALA", "GLY", "LYS"], ["LYS", "ALA"], ["GLY"], ["AS", "ALA", "GLY"], ["GLY", "AS"]], starts=[1, 4]),
+           bounds={"quick": dict(seqs=[["ALA", "GLY", "LYS"], ["LYS", "ALA"], ["GLY"], ["AS", "ALA", "GLY"], ["GLY", "AS"], ["LYS", "GLY", "ALA"]], starts=[1, 4]),
                    "thorough": dict(seqs=[["ALA", "GLY", "LYS"], ["LYS", "ALA"], ["GLY"], ["LYS", "LYS", "ALA", "GLY"], ["AS", "ALA", "GLY"],
-                                          ["GLY", "AS"], ["AS", "LYS", "AS"]], starts=[1, 2, 4, 30])})
+                                          ["GLY", "AS"], ["AS", "LYS", "AS"], ["LYS", "GLY", "ALA"], ["GLY", "ALA"]], starts=[1, 2, 4, 30])})
 def modifications(sx, B):
     """Real ApplyModifications after the real MapToMolecule/ApplyLinks on small peptides: default terminal modifications or an explicit
     -mods selection, residue ids starting anywhere, node keys relabelled. Claims: a modification changes only the attributes it names, on
@@ -367,7 +375,7 @@ def modifications(sx, B):
         sx.cover("several")
     ApplyModifications(modifications=mods, meta_molecule=meta).run_molecule(meta)
     # expected effect, computed independently from the modification table
-    table = {"N-ter": {"BB": {"atype": "Q5", "charge": 1.0}}, "C-ter": {"BB": {"atype": "Q5", "charge": -1.0}},
+    table = {"N-ter": {"BB": {"atype": "Q5", "charge": 1.0}}, "C-ter": {"BB": {"atype": "Q5", "charge": -1.0}, "SC1": {"atype": "C3t"}},
              "LYS-neutral": {"SC2": {"atype": "N6d", "charge": 0.0}, "SC1": {}}}
     expect_nodes = {k: dict(v) for k, v in before_nodes.items()}
     expect_new = []
@@ -406,11 +414,11 @@ def modifications(sx, B):
 
 @condition("C01.gen_params_mods",
            anchors=["polyply.src.gen_itp:gen_params", "polyply.src.apply_modifications:apply_mod"],
-           rejects=(), selector_only=True, must_cover=["default termini", "explicit", "non-protein terminus untouched"],
+           rejects=(), selector_only=True, must_cover=["default termini", "explicit", "non-protein terminus untouched", "atom renamed by a link before the modification"],
            stubs=["apply_links.tqdm -> plain iteration"],
            outside=["sequences other than the listed ones"],
-           bounds={"quick": dict(seqs=[["ALA", "GLY", "LYS"], ["LYS", "ALA"], ["AS", "ALA", "GLY"]]),
-                   "thorough": dict(seqs=[["ALA", "GLY", "LYS"], ["LYS", "ALA"], ["GLY"], ["AS", "ALA", "GLY"], ["GLY", "AS"], ["LYS", "LYS", "ALA", "GLY"]])})
+           bounds={"quick": dict(seqs=[["ALA", "GLY", "LYS"], ["LYS", "ALA"], ["AS", "ALA", "GLY"], ["GLY", "ALA"]]),
+                   "thorough": dict(seqs=[["ALA", "GLY", "LYS"], ["LYS", "ALA"], ["GLY"], ["AS", "ALA", "GLY"], ["GLY", "AS"], ["LYS", "LYS", "ALA", "GLY"], ["GLY", "ALA"]])})
 def gen_params_mods(sx, B):
     """The same through the real gen_params (files in, .itp out, read back with the real reader): the `mods` option reaches the
     modification stage, the default is the terminal pair, and the written atoms differ from the block copies exactly in the
@@ -451,16 +459,19 @@ def gen_params_mods(sx, B):
     read_polyply(lines, ff)
     block = ff.blocks["pep"]
     ref = parse_ff([("ff", PROT_FF)])
-    table = {"N-ter": {"BB": {"atype": "Q5", "charge": 1.0}}, "C-ter": {"BB": {"atype": "Q5", "charge": -1.0}},
+    table = {"N-ter": {"BB": {"atype": "Q5", "charge": 1.0}}, "C-ter": {"BB": {"atype": "Q5", "charge": -1.0}, "SC1": {"atype": "C3t"}},
              "LYS-neutral": {"SC2": {"atype": "N6d", "charge": 0.0}, "SC1": {}}}
     want = []
     for r, rn in enumerate(seq):
         for a in ref.blocks[rn].nodes:
             nd = ref.blocks[rn].nodes[a]
             w = {"resid": r + 1, "resname": rn, "atomname": nd["atomname"], "atype": nd["atype"], "charge": float(nd["charge"])}
+            if rn == "ALA" and r > 0 and seq[r - 1] == "GLY" and nd["atomname"] == "SC1":
+                w["atomname"] = "SCX"        # renamed by the GLY-ALA link; modifications address atoms by their current name
+                sx.cover("atom renamed by a link before the modification")
             for (tr, modname) in targets:
                 if tr == r and rn in PROTEIN:
-                    w.update(table[modname].get(nd["atomname"], {}))
+                    w.update(table[modname].get(w["atomname"], {}))
                 elif tr == r:
                     sx.cover("non-protein terminus untouched")
             want.append(w)
